@@ -45,7 +45,10 @@ CONSTANTS Live,        \* set of persisted paths
           Tmp,         \* set of temp paths (fresh names: uuid4 in the code)
           NW,          \* number of write calls one update performs
           MaxUpd,      \* number of successive updates explored
-          Classes,     \* value classes: plain, newline, backslash, equals, percent, nonascii, empty
+          Classes,     \* value classes: plain, newline, optionline (a continuation line that looks like `key=value`), leadblank,
+                       \* backslash, equals, colon, percent, hash, semicolon, section (`[x]`), nonascii, empty
+          Fields,      \* the free-text fields one persisted file carries (error description; key-output name, description,
+                       \* type, file name; component arguments, variables ...): every update assigns ONE field (or none)
           FaultOps,    \* subset of {"open","write","close","rename"}: operations the environment may fail
           MaxFaults,   \* bound on the number of injected I/O errors per behaviour
           CrashOn,     \* TRUE: the process may die at any point
@@ -67,16 +70,17 @@ VARIABLES fs,       \* [Paths -> content]            what is on disk
           nw,       \* write calls issued in the current update
           target,   \* the live file the current update publishes
           tmp,      \* its temp file
-          cls,      \* class of the value being written
-          mem,      \* [Live -> class] class of the owner's in-memory value ("unset" before the first assignment)
+          cls,      \* [Fields -> class] what is being written
+          mem,      \* [Live -> [Fields -> class]] classes of the owner's in-memory values ("unset" before the first assignment)
           kept,     \* the current update re-persists an unchanged value
+          fld, setc,\* the field assigned before the current update and the class assigned ("keep": none)
           fk,       \* kind of the I/O error injected into the current update ("none")
           hist,     \* finished updates: <<[t, c, keep, f, ok]>>
           vals,     \* [update number -> class written]
           nflt      \* I/O errors injected so far
 fsvars == <<fs, hs, upd, base, crashed>>
-upvars == <<pc, nw, target, tmp, cls, mem, kept, fk, hist, vals, nflt>>
-vars == <<fs, hs, upd, base, crashed, pc, nw, target, tmp, cls, mem, kept, fk, hist, vals, nflt>>
+upvars == <<pc, nw, target, tmp, cls, mem, kept, fld, setc, fk, hist, vals, nflt>>
+vars == <<fs, hs, upd, base, crashed, pc, nw, target, tmp, cls, mem, kept, fld, setc, fk, hist, vals, nflt>>
 
 ---------------------------------------------------------------------------
 (* PART 1: file-system operations with their protocol guards.  They constrain fs' and hs' only. *)
@@ -161,25 +165,29 @@ CommitIsAtomic == [][\A p \in Live : fs'[p] # fs[p] => (fs'[p] = Full(upd') /\ u
 ---------------------------------------------------------------------------
 (* PART 3: the specified updater *)
 
+All(x) == [g \in Fields |-> x]          \* the same class / marker in every field
+
 FreshTmp == CHOOSE p \in Tmp : fs[p].k = "missing"          \* a fresh name (uuid4 in the code)
 
-Finish(ok) == /\ hist' = Append(hist, [t |-> target, c |-> cls, keep |-> kept, f |-> fk, ok |-> ok])
+Finish(ok) == /\ hist' = Append(hist, [t |-> target, fld |-> fld, set |-> setc, c |-> cls, keep |-> kept, f |-> fk, ok |-> ok])
               /\ pc' = "idle"
 
-(* An update persists the in-memory value of the file's owner.  Before it, the owner either sets a new value of  *)
-(* class c, or keeps what it has (c = "keep": the periodic re-write of an unchanged status).  mem[t] is the class  *)
-(* of the in-memory value ("unset" before the first assignment).                                                 *)
-Begin(c, t) == /\ pc = "idle" /\ ~crashed /\ upd < MaxUpd
+(* An update persists the in-memory values of the file's owner.  Before it, the owner either assigns a value of   *)
+(* class c to one free-text field g, or keeps what it has (c = "keep": the periodic re-write of an unchanged       *)
+(* status).  mem[t] = [field -> class of its in-memory value] ("unset" before the first assignment).               *)
+KeepField == CHOOSE g \in Fields : TRUE
+Begin(c, g, t) == /\ pc = "idle" /\ ~crashed /\ upd < MaxUpd
+               /\ (c = "keep" => g = KeepField)                 \* keeping is not about a field: one representative
                /\ \E p \in Tmp : fs[p].k = "missing"
                /\ BeginUpdate
-               /\ mem' = [mem EXCEPT ![t] = IF c = "keep" THEN @ ELSE c]
-               /\ cls' = mem'[t] /\ kept' = (c = "keep")
+               /\ mem' = [mem EXCEPT ![t][g] = IF c = "keep" THEN @ ELSE c]
+               /\ cls' = mem'[t] /\ kept' = (c = "keep") /\ fld' = g /\ setc' = c
                /\ target' = t /\ tmp' = FreshTmp /\ nw' = 0 /\ fk' = "none"
                /\ vals' = [vals EXCEPT ![upd + 1] = mem'[t]]
                /\ pc' = "open"
                /\ UNCHANGED <<hist, nflt>>
 
-Keep == UNCHANGED <<upd, base, crashed, target, tmp, cls, mem, kept, vals>>
+Keep == UNCHANGED <<upd, base, crashed, target, tmp, cls, mem, kept, fld, setc, vals>>
 
 UOpen == /\ pc = "open" /\ ~crashed /\ OpenTmp(tmp)
          /\ pc' = "write" /\ Keep /\ UNCHANGED <<nw, fk, hist, nflt>>
@@ -193,7 +201,8 @@ URename == /\ pc = "rename" /\ ~crashed /\ Rename(tmp, target)
 MayFail(op) == ~crashed /\ op \in FaultOps /\ nflt < MaxFaults
 UOpenFail == /\ pc = "open" /\ MayFail("open") /\ NoEffect
              /\ fk' = "open" /\ nflt' = nflt + 1
-             /\ hist' = Append(hist, [t |-> target, c |-> cls, keep |-> kept, f |-> "open", ok |-> FALSE]) /\ pc' = "idle"
+             /\ hist' = Append(hist, [t |-> target, fld |-> fld, set |-> setc, c |-> cls, keep |-> kept, f |-> "open", ok |-> FALSE])
+             /\ pc' = "idle"
              /\ Keep /\ UNCHANGED nw
 UWriteFail == /\ pc = "write" /\ nw < NW /\ MayFail("write") /\ WriteFail(tmp)
               /\ fk' = "write" /\ nflt' = nflt + 1 /\ pc' = "failclose"
@@ -219,10 +228,11 @@ Init == /\ fs \in [Paths -> {Missing, Full(0)}]
         /\ hs = [p \in Paths |-> "none"]
         /\ upd = 0 /\ base = fs /\ crashed = FALSE
         /\ pc = "idle" /\ nw = 0 /\ target = (CHOOSE x \in Live : TRUE) /\ tmp = (CHOOSE x \in Tmp : TRUE)
-        /\ cls = "initial" /\ mem = [p \in Live |-> "unset"] /\ kept = FALSE /\ fk = "none" /\ hist = <<>> /\ nflt = 0
-        /\ vals = [u \in 0..MaxUpd |-> "initial"]
+        /\ cls = All("initial") /\ mem = [p \in Live |-> All("unset")] /\ kept = FALSE /\ fld = KeepField /\ setc = "keep"
+        /\ fk = "none" /\ hist = <<>> /\ nflt = 0
+        /\ vals = [u \in 0..MaxUpd |-> All("initial")]
 
-Next == \/ \E c \in Classes \cup {"keep"}, t \in Live : Begin(c, t)
+Next == \/ \E c \in Classes \cup {"keep"}, g \in Fields, t \in Live : Begin(c, g, t)
         \/ UOpen \/ UWrite \/ UClose \/ URename
         \/ UOpenFail \/ UWriteFail \/ UCloseAfterFail \/ UCloseFail \/ URenameFail
         \/ UAbort \/ ULeave
@@ -241,16 +251,16 @@ DeviantNext == \/ Next
 (* Fidelity *)
 
 (* what a reader of p gets *)
-Read(p) == CASE fs[p].k = "missing" -> "absent"
+Read(p) == CASE fs[p].k = "missing" -> All("absent")
              [] fs[p].k = "complete" -> vals[fs[p].v]
-             [] OTHER -> "garbage"
+             [] OTHER -> All("garbage")
 
-(* what the history says it must be: the class of the last successful update of p *)
+(* what the history says it must be: field by field the class persisted by the last successful update of p *)
 RECURSIVE LastOk(_, _, _)
 LastOk(h, p, dflt) == IF h = <<>> THEN dflt
                       ELSE IF h[Len(h)].t = p /\ h[Len(h)].ok THEN h[Len(h)].c
                       ELSE LastOk(SubSeq(h, 1, Len(h) - 1), p, dflt)
-Initial(p) == IF base[p].k = "missing" /\ \A i \in 1..Len(hist) : ~(hist[i].t = p /\ hist[i].ok) THEN "absent" ELSE "initial"
+Initial(p) == IF base[p].k = "missing" /\ \A i \in 1..Len(hist) : ~(hist[i].t = p /\ hist[i].ok) THEN All("absent") ELSE All("initial")
 
 Fidelity == (pc = "idle") => \A p \in Live : Read(p) = LastOk(hist, p, Initial(p))
 
